@@ -157,8 +157,8 @@ V("c06-partialreduce-token-drops-keepdims", "C06", "R06.1", "dask_array/reductio
 V("c06-reduction-token-drops-weights", "C06", "R06.1", "dask_array/reductions/_reduction.py",
   "                self.output_size,\n                self.weights,\n            )", "                self.output_size,\n            )", expect="::weights")
 V("c06-rechunk-name-drops-operands", "C06", "R06.1", "dask_array/_rechunk.py",
-  "            non_array = [self.operand(p) for p in self._parameters if p != \"array\"]\n            return \"rechunk-merge-rc1\" + hash_buffer_hex(_dumps5((self.array._name, *non_array)))",
-  "            return \"rechunk-merge-rc1\" + hash_buffer_hex(_dumps5((self.array._name, self.operand(\"_chunks\"))))", expect="Rechunk::")
+  "            non_array = [self.operand(p) for p in self._parameters if p != \"array\"]\n            return \"rechunk-merge-rc1\" + hash_buffer_hex(_dumps5_nomemo((self.array._name, *non_array)))",
+  "            return \"rechunk-merge-rc1\" + hash_buffer_hex(_dumps5_nomemo((self.array._name, self.operand(\"_chunks\"))))", expect="Rechunk::")
 V("c06-shuffle-name-forgets-axis", "C06", "R06.1", "dask_array/_shuffle.py",
   "        return f\"{self.operand('name')}-{self.deterministic_token}\"", "        return f\"{self.operand('name')}-{_tokenize_deterministic(self.array, self.indexer)}\"", expect="Shuffle::axis")
 V("c06-new-conditional-pin", "C06", "R06.3", "dask_array/_shuffle.py",
@@ -739,6 +739,14 @@ V("c24-twin-rebuild-via-locals", "C24", "-", "dask_array/io/_from_array.py",
 V("c24-twin-getter-nested-lock-test", "C24", "-", "dask_array/io/_from_array.py",
   "        if is_ndarray and not is_single_block and not lock:", "        if is_ndarray and not lock and not is_single_block:", twin=True)
 
+V("c24-twin-extras-from-helper", "C24", "-", "dask_array/_core_utils.py", None, None, twin=True, edits=[
+  ("dask_array/_core_utils.py", "    if has_keyword(getitem, \"asarray\") and has_keyword(getitem, \"lock\") and (not asarray or lock):\n        kwargs = {\"asarray\": asarray, \"lock\": lock}\n    else:\n        # Common case, drop extra parameters\n        kwargs = {}\n", "    kwargs = _getter_kwargs(getitem, asarray, lock)\n"),
+  ("dask_array/_core_utils.py", "def graph_from_arraylike(", "def _getter_kwargs(fn, asarray, lock):\n    if has_keyword(fn, \"asarray\") and has_keyword(fn, \"lock\") and (not asarray or lock):\n        return {\"asarray\": asarray, \"lock\": lock}\n    return {}\n\n\ndef graph_from_arraylike("),
+])
+V("c24-extras-from-helper-ungated", "C24", "R24.2", "dask_array/_core_utils.py", None, None, expect="graph_from_arraylike", edits=[
+  ("dask_array/_core_utils.py", "    if has_keyword(getitem, \"asarray\") and has_keyword(getitem, \"lock\") and (not asarray or lock):\n        kwargs = {\"asarray\": asarray, \"lock\": lock}\n    else:\n        # Common case, drop extra parameters\n        kwargs = {}\n", "    kwargs = _getter_kwargs(getitem, asarray, lock)\n"),
+  ("dask_array/_core_utils.py", "def graph_from_arraylike(", "def _getter_kwargs(fn, asarray, lock):\n    if not asarray or lock:\n        return {\"asarray\": asarray, \"lock\": lock}\n    return {}\n\n\ndef graph_from_arraylike("),
+])
 V("c24-getter-converts-after-release", "C24", "R24.3", "dask_array/_core_utils.py",
   "        if asarray and (not is_arraylike(c) or isinstance(c, np.matrix)):\n            c = np.asarray(c)\n    finally:\n        if lock:\n            lock.release()\n    return c",
   "    finally:\n        if lock:\n            lock.release()\n    if asarray and (not is_arraylike(c) or isinstance(c, np.matrix)):\n        c = np.asarray(c)\n    return c", expect="getter")
@@ -767,6 +775,14 @@ V("c25-twin-index-rebind-as-ifexp", "C25", "-", "dask_array/io/_store.py",
 V("c25-index-rebind-ifexp-swapped", "C25", "R25.2", "dask_array/io/_store.py",
   "        if index:\n            index = fuse_slice(region, index)\n        else:\n            index = region\n", "        index = region if index else fuse_slice(region, index)\n", expect="load_store_chunk")
 
+V("c07-rechunk-name-memoising-pickle-again", "C07", "R07.1", "dask_array/_rechunk.py", None, None, expect="Rechunk._name", edits=[
+  ("dask_array/_rechunk.py", "from dask_array.io._from_map import _dumps5_nomemo\n", "from dask_array.io._from_map import _dumps5\n"),
+  ("dask_array/_rechunk.py", "hash_buffer_hex(_dumps5_nomemo((self.array._name, *non_array)))", "hash_buffer_hex(_dumps5((self.array._name, *non_array)))"),
+])
+V("c07-nomemo-pickler-memo-left-on", "C07", "R07.1", "dask_array/io/_from_map.py",
+  "    pickler = pickle.Pickler(buf, protocol=5)\n    pickler.fast = True\n", "    pickler = pickle.Pickler(buf, protocol=5)\n", expect="Rechunk._name")
+V("c07-twin-nomemo-pickler-renamed", "C07", "-", "dask_array/io/_from_map.py",
+  "    buf = io.BytesIO()\n    pickler = pickle.Pickler(buf, protocol=5)\n    pickler.fast = True\n    pickler.dump(obj)\n    out = buf.getvalue()\n", "    sink = io.BytesIO()\n    p = pickle.Pickler(sink, protocol=5)\n    p.fast = True\n    p.dump(obj)\n    out = sink.getvalue()\n", twin=True)
 V("c02-detector-uses-forward-permutation", "C02", "R02.6", "dask_array/_blockwise.py",
   "        inv = expr._inverse_axes\n        dep_mapping = tuple(parent_mapping[inv[i]] for i in range(len(inv)))", "        dep_mapping = tuple(parent_mapping[ax] for ax in expr.axes)", expect="_symbolic_mapping")
 V("c02-twin-detector-local-rename", "C02", "-", "dask_array/_blockwise.py",
